@@ -345,6 +345,98 @@ fn demux<T: 'static>(keys: &[u32], items: Vec<(u32, T)>) -> Vec<(u32, Queue<T>)>
     queues
 }
 
+/// scripted member sink: one-slot mailbox; `poll_ready` answers the next script entry (Ready once the
+/// script is exhausted), a Ready answer means the receiver took the mailbox content; `start_send`
+/// into an occupied mailbox overwrites (loses) the old message
+struct MemberState {
+    script: std::collections::VecDeque<bool>,
+    slot: Option<u64>,
+    got: Vec<u64>,
+    lost: u64,
+    answers: Vec<bool>,
+}
+struct ScriptSink(Rc<RefCell<MemberState>>);
+impl Sink<u64> for ScriptSink {
+    type Error = std::convert::Infallible;
+    fn poll_ready(self: Pin<&mut Self>, _cx: &mut std::task::Context<'_>) -> std::task::Poll<Result<(), Self::Error>> {
+        let mut m = self.0.borrow_mut();
+        let a = m.script.pop_front().unwrap_or(true);
+        m.answers.push(a);
+        if a {
+            if let Some(x) = m.slot.take() {
+                m.got.push(x);
+            }
+            std::task::Poll::Ready(Ok(()))
+        } else {
+            std::task::Poll::Pending
+        }
+    }
+    fn start_send(self: Pin<&mut Self>, item: u64) -> Result<(), Self::Error> {
+        let mut m = self.0.borrow_mut();
+        if m.slot.is_some() {
+            m.lost += 1;
+        }
+        m.slot = Some(item);
+        Ok(())
+    }
+    fn poll_flush(self: Pin<&mut Self>, _cx: &mut std::task::Context<'_>) -> std::task::Poll<Result<(), Self::Error>> {
+        let mut m = self.0.borrow_mut();
+        if let Some(x) = m.slot.take() {
+            m.got.push(x);
+        }
+        std::task::Poll::Ready(Ok(()))
+    }
+    fn poll_close(self: Pin<&mut Self>, cx: &mut std::task::Context<'_>) -> std::task::Poll<Result<(), Self::Error>> {
+        self.poll_flush(cx)
+    }
+}
+
+/// {"k":"bp","init":[[key,[bool..]],..],"items":[[key,x],..],"fuel":n}: the real demux_map over scripted
+/// member sinks, driven by a sender that follows the Sink contract (poll_ready until Ready, then start_send)
+fn run_bp(case: &Value) -> Value {
+    let fuel = case["fuel"].as_u64().unwrap_or(40);
+    let mut states = Vec::new();
+    let mut sinks = HashMap::new();
+    for ks in case["init"].as_array().unwrap() {
+        let k = us(&ks[0]) as u32;
+        let st = Rc::new(RefCell::new(MemberState {
+            script: ks[1].as_array().unwrap().iter().map(|b| b.as_bool().unwrap()).collect(),
+            slot: None,
+            got: Vec::new(),
+            lost: 0,
+            answers: Vec::new(),
+        }));
+        states.push((k, st.clone()));
+        sinks.insert(k, ScriptSink(st));
+    }
+    let mut dm = sinktools::demux_map(sinks);
+    let waker = futures::task::noop_waker();
+    let mut cx = std::task::Context::from_waker(&waker);
+    let mut polls = Vec::new();
+    for p in case["items"].as_array().unwrap() {
+        let mut ready = false;
+        for _ in 0..fuel {
+            let r = Pin::new(&mut dm).poll_ready(&mut cx).is_ready();
+            polls.push(r);
+            if r {
+                ready = true;
+                break;
+            }
+        }
+        if !ready {
+            return json!({"stuck": true});
+        }
+        Pin::new(&mut dm).start_send((us(&p[0]) as u32, p[1].as_u64().unwrap())).unwrap();
+    }
+    let r = Pin::new(&mut dm).poll_flush(&mut cx);
+    assert!(r.is_ready());
+    json!({
+        "members": states.iter().map(|(k, st)| { let m = st.borrow(); json!([k, m.got, m.lost]) }).collect::<Vec<_>>(),
+        "answers": states.iter().map(|(k, st)| json!([k, st.borrow().answers])).collect::<Vec<_>>(),
+        "polls": polls,
+    })
+}
+
 fn run(case: &Value) -> Value {
     match case["k"].as_str().unwrap_or("") {
         "val" => {
@@ -395,6 +487,7 @@ fn run(case: &Value) -> Value {
             json!({"same": back == m, "raw_back": back.get_raw_id(), "tagless_raw": t.get_raw_id(),
                    "tagless_again": back.into_tagless() == t, "bytes": bytes, "tbytes": tbytes, "de_raw": de.get_raw_id()})
         }
+        "bp" => run_bp(case),
         "demux" => {
             let keys: Vec<u32> = case["keys"].as_array().unwrap().iter().map(|x| us(x) as u32).collect();
             let items: Vec<(u32, u64)> =
